@@ -187,7 +187,8 @@ def t_compare(t):
     try:
         r["a_tokens"] = vocab.tokens_of_block(A)
         r["b_tokens"] = vocab.tokens_of_block(B)
-        r["need"] = max(A.source_stack, B.source_stack)
+        # states are made just deep enough for the FIRST block: the second one may not need a deeper stack
+        r["need"] = A.source_stack
     except vocab.Unsupported as u:
         r["unsupported"] = str(u)
     try:
